@@ -61,7 +61,12 @@ def run_crash(args):
                 for name, ct, etag in st.iter_with_etag():
                     members[name] = c04.sha(b"".join(st.get_file(name, ct, etag).content))
                 fp = common.h(sorted(members.items()))
-                tag = st.get_ctag()
+                try:
+                    tag = st.get_ctag()
+                except Exception as e:
+                    res.violation(f"store-api/{backend}/crash-history/tag-unreadable/{type(e).__name__}", f"{backend}/{op}: {where}: get_ctag() raises {e!r} (PROPFIND of the collection would fail)",
+                                  {"config": dict(args), "scenario": [backend, meta, op, prior], "where": where})
+                    return
                 res.count("crash_tag_observations")
                 sig = f"store-api/{backend}/crash-history"
                 if tag in tag_to_fp and tag_to_fp[tag][0] != fp:
